@@ -227,6 +227,9 @@ func Gen(o Options) *Program {
 		}
 	}
 	p.curFile = nil
+	if o.Cyclic {
+		p.addCycleReferences()
+	}
 	if o.WantService {
 		root := p.Files[0]
 		has := false
@@ -309,6 +312,36 @@ func (p *Program) addRecursion() {
 		}
 	}
 	s.Fields = append(s.Fields, &FieldDef{ID: id, Name: fmt.Sprintf("self%d", id), Req: ReqOptional, Type: target})
+}
+
+// addCycleReferences: where two files include each other, make the later-created
+// one refer to definitions of the earlier-created one as well, so that
+// references really run both ways across the include cycle.
+func (p *Program) addCycleReferences() {
+	for _, f := range p.Files {
+		for _, j := range f.Includes {
+			g := p.Files[j]
+			if j >= f.Index || !contains(g.Includes, f.Index) {
+				continue // only the back edge of a cycle (f was generated before g had any definitions)
+			}
+			var types []*Def
+			for _, d := range g.Defs {
+				if d.Kind == KStruct || d.Kind == KEnum || d.Kind == KTypedef {
+					types = append(types, d)
+				}
+			}
+			if len(types) == 0 || !simrt.Flip("cycle.back-reference", 0.7) {
+				continue
+			}
+			d := types[ch("cycle.target", len(types))]
+			ref := &TypeRef{Ref: &Ref{d.File, d.Name}}
+			if simrt.Flip("cycle.via-typedef", 0.5) {
+				p.add(f, &Def{Kind: KTypedef, Name: p.name("Td"), Type: ref})
+			} else {
+				p.add(f, &Def{Kind: KStruct, Name: p.name("S"), Fields: []*FieldDef{{ID: 1, Name: "across1", Req: ReqOptional, Type: ref}}})
+			}
+		}
+	}
 }
 
 // addServiceChain adds an inheritance chain of three services over an include
@@ -610,6 +643,14 @@ func (p *Program) genFields(f *File, prefix string, max int, o Options, union bo
 			fd.Req = ReqOptional
 		} else if prefix == "arg" {
 			fd.Req = ReqDefault
+			if o.Defaults {
+				switch p.KindOf(fd.Type) {
+				case "bool", "int", "double", "string", "enum":
+					if simrt.Flip("arg.default", 0.15) {
+						fd.Default = p.genValue(f, fd.Type, o, 1)
+					}
+				}
+			}
 		} else {
 			fd.Req = ReqOptional - Req(ch("field.required", 2)) // optional (0) or required (1)
 			if o.Defaults && !union {
